@@ -405,3 +405,56 @@ Example C09_flight_on_wire_nonvacuous :
   end.
 Proof. exact flight_on_wire_example. Qed.
 Print Assumptions C09_flight_on_wire_nonvacuous.
+
+(** * Round 4: planInitialFlight, and retransmission until the queue is empty
+
+    [plan_flight] = uPacketPacker.planInitialFlight on a fully queued ClientHello (BuildFlight of
+    QUICFlightFrames / QUICRandomFlightFrames with the budgets of flightBudgets, then
+    validateInitialFlight); [flight_sent] = the datagrams packPlannedInitial then sends.  Both are
+    replayed through the real packer by unit `uwire` (PlanCase: fixed table of overlapping,
+    from-the-end and holed plans, and generated ones).
+
+    For EVERY plan — overlapping ranges, ranges addressed from the end, randomised cuts —, every
+    ClientHello, all budgets and both oracles: an accepted plan sends datagrams whose frames lie
+    inside the ClientHello, carry its bytes at absolute offsets, and whose CRYPTO ranges have
+    exactly the union [0, |hello|); a rejected plan (or a failing builder) sends nothing. *)
+Theorem C09_planned_flight_complete : forall fb hello budgets bs us,
+  zlen hello <= 2 ^ 48 ->
+  match plan_flight fb hello budgets bs us with
+  | Ok (wss, _, _) =>
+    flight_sent fb hello budgets bs us = wss /\
+    Forall (frame_in hello) wss /\
+    (forall j, (exists ws o d, In ws wss /\ In (o, d) (wcryptos ws) /\ o <= j < o + zlen d) <-> 0 <= j < zlen hello)
+  | _ => flight_sent fb hello budgets bs us = []
+  end.
+Proof. exact plan_flight_complete. Qed.
+Print Assumptions C09_planned_flight_complete.
+
+(** The plan shape of seeded change C09-e (two bytes sent twice, a later byte never) is rejected
+    and sends nothing; with the hole closed the overlapping plan is accepted. *)
+Example C09_planned_flight_examples :
+  plan_flight (FBFrames [[FCrypto (-3) 0; FCrypto 0 2]; [FCrypto 0 5]; [FCrypto 6 (-3)]]) pl_hello [0] [] [] = Err 105 /\
+  flight_sent (FBFrames [[FCrypto (-3) 0; FCrypto 0 2]; [FCrypto 0 5]; [FCrypto 6 (-3)]]) pl_hello [0] [] [] = [] /\
+  (exists wss, plan_flight (FBFrames [[FCrypto (-3) 0; FCrypto 0 2]; [FCrypto 0 5]; [FCrypto 5 (-3)]]) pl_hello [0] [] [] = Ok (wss, [], [])
+               /\ length wss = 3%nat).
+Proof. exact plan_flight_examples. Qed.
+Print Assumptions C09_planned_flight_examples.
+
+(** QUICFlightFrames (Build and BuildFlight) never panics when its PADDING lengths are
+    non-negative, whatever the ranges. *)
+Theorem C09_flight_frames_no_panic : forall dgs first full,
+  Forall pads_ok dgs -> flight_frames dgs first full <> Panic.
+Proof. exact flight_frames_nopanic. Qed.
+Print Assumptions C09_flight_frames_no_panic.
+
+(** Retransmission after loss preserves completeness: after ANY history of losses,
+    acknowledgements and packing calls, once the retransmission queue is empty every byte the
+    first flight carried is acknowledged or in an outstanding packet (whose wire content is exact
+    by C09_flight_on_wire_complete, part III). *)
+Theorem C09_retx_drained_complete : forall planned layout flight0 n ops st' rs,
+  (forall b, 0 <= b < n -> covers b (flat_map snd flight0)) ->
+  rrun planned layout (RS flight0 [] []) ops = Some (st', rs) ->
+  rQueue st' = [] ->
+  forall b, 0 <= b < n -> covers b (rAcked st') \/ exists pn fs, In (pn, fs) (rOut st') /\ covers b fs.
+Proof. exact retx_drained_complete. Qed.
+Print Assumptions C09_retx_drained_complete.
